@@ -34,8 +34,35 @@ def default_values(case):
 signature_matches = c01.signature_matches
 
 
+_EVENTS = []
+
+
+def _watch_events():
+    """record, from outside, the order of `get_nb_eigenvalues_and_corrected_matrix` and `wrapper.heuristic` calls"""
+    from PEPit.pep import PEP
+    from PEPit.wrappers import CvxpyWrapper, MosekWrapper
+    if getattr(PEP, '_vf_watched', False):
+        return
+    orig = PEP.get_nb_eigenvalues_and_corrected_matrix
+
+    def corrected(M):
+        _EVENTS.append('corrected')
+        return orig(M)
+    PEP.get_nb_eigenvalues_and_corrected_matrix = staticmethod(corrected)
+    for cls in (CvxpyWrapper, MosekWrapper):
+        h0 = cls.heuristic
+
+        def heuristic(self, weight, _h0=h0):
+            _EVENTS.append('heuristic')
+            return _h0(self, weight)
+        cls.heuristic = heuristic
+    PEP._vf_watched = True
+
+
 def prog(env, case):
     from PEPit import Point, Expression
+    _watch_events()
+    del _EVENTS[:]
     spec = dict(case['spec'])
     backend = case['backend']
     h = case['heuristic']
@@ -162,6 +189,33 @@ def prog(env, case):
                               signature=tag + ":trace-increases", pools=('primal0', 'kkt0', 'gap0', 'kkt1', 'gap1', 'primal1'))
         if not env.sym and h == 'trace':
             pass
+    if h.startswith('logdet') and n_solves_expected > 1:
+        # every logdet iteration must recompute its weight from the latest solution: between two consecutive calls of
+        # wrapper.heuristic the eigenvalue-corrected Gram matrix has to be recomputed (observed from outside)
+        ok_order = True
+        last_h = None
+        for i, ev in enumerate(_EVENTS):
+            if ev == 'heuristic':
+                if last_h is not None and 'corrected' not in _EVENTS[last_h + 1:i]:
+                    ok_order = False
+                last_h = i
+        env.check(ok_order, "a logdet iteration re-used the weight matrix of the previous one (the corrected Gram matrix was "
+                  "not recomputed in between): events %s" % _EVENTS, signature=tag + ":stale-weights")
+    if env.sym and h.startswith('logdet') and n_solves_expected > 1 and backend == 'cvxpy':
+        from vf.npshim import provenance_closure, _symbols
+        for k in range(1, n_solves_expected):
+            sv = stub.solves[k]
+            if backend == 'cvxpy':
+                coefs = list(sv.problem.objective.expr.terms.values())
+            else:
+                coefs = [w_ for lst in sv.task.barC.values() for (si, w_) in lst] + \
+                        [v for lst in sv.task.barC.values() for (si, w_) in lst for (_, _, v) in sv.task.symmats[si][1]]
+            names = _symbols(coefs)
+            clos = provenance_closure(env.eng, names)
+            pre = "o.x%d." % (k - 1) if backend == 'cvxpy' else "o.m%d." % (k - 1)
+            env.check(any(nm.startswith(pre) for nm in clos),
+                      "the weight matrix of logdet iteration %d is not derived from the solution of the previous solve "
+                      "(stale weights)" % k, signature=tag + ":stale-weights-provenance")
     env.reachable("C14", pools=('kkt0',))
     return "%s %s" % (h, mode)
 
@@ -169,7 +223,8 @@ def prog(env, case):
 def cases(tier):
     cs = []
     hs = ['trace', 'logdet0', 'logdet1', 'logdet2']
-    models = [('gd', dict(fclass='ssc', steps=['grad']))]
+    models = [('gd', dict(fclass='ssc', steps=['grad'])),
+              ('negative-optimum', dict(fclass='sc', steps=['grad'], stationary=False, negative=True))]
     if tier == 'thorough':
         models += [('lmi', dict(fclass='ssc', steps=['grad'], lmis=['sym2'], lmi_metric=False)),
                    ('qg', dict(fclass='qg', steps=['grad'], stationary=False))]
@@ -177,6 +232,8 @@ def cases(tier):
         for h in hs:
             for be in ('cvxpy', 'mosek'):
                 for mode in ('dual', 'primal'):
+                    if mname == 'negative-optimum' and (h not in ('trace', 'logdet1') or mode == 'primal') and tier == 'quick':
+                        continue
                     cs.append(dict(id="%s-%s-%s-%s" % (mname, h, be, mode), spec=spec, heuristic=h, backend=be, mode=mode,
                                    input_zero_tests='generic', output_branches='first'))
     cs.append(dict(id="tiny-trace-cvxpy-dual", spec=dict(tiny=True, fclass='smooth', metrics=1), heuristic='trace',
